@@ -325,6 +325,8 @@ def family(tier, seed):
     for canon in ([False] if tier == "quick" else [True, False]):
         E.append(entry("to_le_bits", S_to_bits(None, canon), [rf()], {"nb": None, "canon": canon}, alt=[[0], [P - 1], [1]]))
         E.append(entry("to_le_bits", S_to_bits(255, canon), [rf()], {"nb": 255, "canon": canon}, alt=[[0], [P - 1]]))
+        if canon:
+            E[-1]["timeout"] = E[-2]["timeout"] = 2400     # measured 290 s on a quiet machine, > 600 s under load
     if tier == "quick":
         for canon in [True, False]:
             E.append(entry("to_le_bits", S_to_bits(254, canon), [rnd.randrange(1 << 254)], {"nb": 254, "canon": canon}, alt=[[0], [(1 << 254) - 1]]))
@@ -340,6 +342,8 @@ def family(tier, seed):
         bits = [rnd.randrange(2) for _ in range(n)]
         E.append(entry("from_le_bits", S_from(n, 2), bits, {"n": n}, alt=[[1] * n, [0] * n]))
         E.append(entry("from_be_bits", S_from(n, 2, be=True), bits, {"n": n}))
+        if n >= 255:
+            E[-1]["timeout"] = E[-2]["timeout"] = 2400     # measured 270-560 s on a quiet machine
     for n in ([1, 4, 32] if tier == "quick" else [1, 2, 4, 31, 32, 33, 40]):
         bs = [rnd.randrange(256) for _ in range(n)]
         E.append(entry("from_le_bytes", S_from(n, 256), bs, {"n": n}, alt=[[255] * n, [0] * n]))
